@@ -567,7 +567,7 @@ func cases() []caseSpec {
 		"raw-noread": {"server-close", "stream-close", "peer-disconnect", "both"},
 		"raw-half":   {"server-close", "peer-disconnect"},
 	}
-	reps := run.Pick(1, 6)
+	reps := run.Pick(3, 12)
 	for _, sc := range []string{"play", "record", "raw-noread", "raw-half"} {
 		for ti, t := range trs[sc] {
 			for cut := -1; cut <= steps[sc]; cut++ {
